@@ -475,6 +475,15 @@ def cases_afftree_clone():
              struct('pwl::afftree::AffTree', tree=t, in_dim=atom('DIM')))]
 
 
+def cases_state_predicate(true_for):
+    def mk():
+        st = lambda v, **f: ('enum', 'pwl::node::NodeState', v, f)
+        states = [('Indeterminate', st('Indeterminate')), ('Infeasible', st('Infeasible')), ('Feasible', st('Feasible')),
+                  ('FeasibleWitness', st('FeasibleWitness', **{'0': atom('WITNESSES')}))]
+        return [('state ' + n, [v], n in true_for) for n, v in states]
+    return mk
+
+
 def cases_replace_node():
     t = atom('ARENA_TREE')
     me = struct('pwl::afftree::AffTree', tree=t, in_dim=atom('DIM'))
@@ -522,6 +531,9 @@ TABLES.update({
     '<Tree as Clone>::clone': (cases_tree_clone, 'a copy with the same arena (same indices) and the same root'),
     '<TreeNode as Clone>::clone': (cases_node_clone, 'a copy with the same value, parent link, child slots and leaf flag'),
     '<AffTree as Clone>::clone': (cases_afftree_clone, 'a copy with the same arena tree and input dimension'),
+    'NodeState::is_feasible': (cases_state_predicate({'Feasible', 'FeasibleWitness'}), 'true exactly for Feasible and FeasibleWitness'),
+    'NodeState::is_infeasible': (cases_state_predicate({'Infeasible'}), 'true exactly for Infeasible'),
+    'NodeState::is_indetermined': (cases_state_predicate({'Indeterminate'}), 'true exactly for Indeterminate'),
     'AffTree::replace_node': (cases_replace_node, 'the root keeps its place and gets the new function; any other node is detached from its parent slot (with its descendants) and a fresh node with the new function is attached to that same slot'),
     '<PolyhedraIter as Iterator>::size_hint': (cases_polyiter_size_hint, 'the bounds kept by the wrapped depth-first traversal'),
 })
@@ -883,16 +895,16 @@ def run(ctx, rule, names):
 RULE_TEXT = ('the small accessors this property\'s rules read by name do what the name says: each body is walked over an exhaustive case '
              'partition of its inputs (index stored / not stored, slot empty / occupied, root absent / this / another index) and must return '
              'the contract\'s value in every case')
-DEPS = {'C01': ['Tree::children', 'Tree::is_leaf', 'Tree::num_children', 'Tree::parent', 'Tree::contains', 'Tree::get_root', 'AffFuncBase::indim', 'AffFuncBase::outdim', 'afftree_from_layers', 'afftree_from_layers_verbose', 'afftree_from_layers_csv', 'Tree::terminals', 'AffTree::terminals'],
+DEPS = {'C01': ['Tree::children', 'Tree::is_leaf', 'Tree::num_children', 'Tree::parent', 'Tree::contains', 'Tree::get_root', 'AffFuncBase::indim', 'AffFuncBase::outdim', 'afftree_from_layers', 'afftree_from_layers_verbose', 'afftree_from_layers_csv', 'Tree::terminals', 'AffTree::terminals', 'NodeState::is_feasible', 'NodeState::is_infeasible', 'NodeState::is_indetermined'],
         'C02': ['Tree::children', 'Tree::is_leaf', 'Tree::get_root', '<AffFuncBase as Clone>::clone', 'AffFuncBase::indim', 'AffFuncBase::outdim', '<AffTree as Clone>::clone'],
-        'C03': ['Tree::children', 'Tree::contains', 'Tree::num_children', 'Tree::parent', 'Tree::is_leaf'],
+        'C03': ['Tree::children', 'Tree::contains', 'Tree::num_children', 'Tree::parent', 'Tree::is_leaf', 'NodeState::is_feasible', 'NodeState::is_infeasible', 'NodeState::is_indetermined'],
         'C04': ['InputError::expect_dim', 'Tree::is_leaf', 'AffFuncBase::indim', 'AffFuncBase::outdim', 'AffFuncBase::n_constraints', 'TreeNode::new', 'Tree::with_root', 'AffTree::replace_node', 'Tree::terminals', 'AffTree::terminals'],
-        'C05': ['Tree::parent', 'Tree::children', 'Tree::contains', 'Tree::node_value', 'AffContent::feasible_witnesses'],
-        'C06': ['Tree::contains', 'Tree::num_children', 'Tree::parent', 'Tree::children'],
+        'C05': ['Tree::parent', 'Tree::children', 'Tree::contains', 'Tree::node_value', 'AffContent::feasible_witnesses', 'NodeState::is_feasible', 'NodeState::is_infeasible', 'NodeState::is_indetermined'],
+        'C06': ['Tree::contains', 'Tree::num_children', 'Tree::parent', 'Tree::children', 'NodeState::is_feasible', 'NodeState::is_infeasible', 'NodeState::is_indetermined'],
         'C07': ['<AffFuncBase as Clone>::clone', 'Tree::children', 'Tree::is_leaf', '<TraversalIter as Iterator>::next', '<AffTree as Clone>::clone', '<Tree as Clone>::clone'],
         'C08': ['TreeNode::children_iter', 'tree::iter::TraversalMut::iter', '<TraversalIter as Iterator>::next', 'Tree::tree_node'],
         'C09': ['Tree::parent', 'Tree::child', 'Tree::children', 'Tree::get_root', 'Tree::node_value', 'Tree::num_children', '<TraversalIter as Iterator>::next', 'PolyhedraGen::current_polytope', 'PolyhedraIter::skip_subtree'],
-        'C11': ['Tree::parent', 'Tree::children', 'Tree::contains'],
+        'C11': ['Tree::parent', 'Tree::children', 'Tree::contains', 'NodeState::is_feasible', 'NodeState::is_infeasible', 'NodeState::is_indetermined'],
         'C12': ['TreeNode::new', 'Tree::is_root', 'Tree::is_leaf', 'Tree::contains', 'Tree::tree_node', 'Tree::node_value', 'Tree::get_root', 'Tree::child', 'Tree::parent', 'Tree::num_children', 'TreeNode::children_iter', 'Tree::children', '<Tree as Index>::index', 'Tree::with_capacity', 'Tree::new', '<Tree as Default>::default', 'Tree::with_root', '<NodeError as From>::from', 'EdgeReferenceMut::extract', 'EdgeReferenceMut::edge', 'NodeReferenceMut::index', 'Tree::is_empty', '<Tree as Clone>::clone', '<TreeNode as Clone>::clone', 'Tree::tree_node_mut', 'Tree::node_value_mut', 'Tree::tree_node2_mut', 'Tree::child_mut', 'Tree::parent_mut'],
         'C13': ['TreeNode::children_iter', 'Tree::children', 'Tree::nodes', 'Tree::edge_iter', '<TraversalIter as Iterator>::next', '<TraversalIter as Iterator>::size_hint', 'TraversalIter::from', 'tree::iter::TraversalMut::iter', 'Tree::is_leaf', 'Tree::parent', 'Tree::get_root', '<DfsPre as TraversalMut>::size_hint', '<DfsEdge as TraversalMut>::size_hint', '<Bfs as TraversalMut>::size_hint', 'TraversalIter::skip_subtree', 'TraversalIter::new', 'EdgeReference::extract', 'EdgeReference::edge', 'NodeReference::index', 'AffTree::is_empty', 'Tree::node_indices', 'Tree::node_iter', 'Tree::get_root_idx', 'Tree::dfs_edge_iter', 'Tree::len', 'AffTree::len', 'AffTree::num_terminals', 'AffTree::depth', 'AffTree::nodes', 'AffTree::terminals', 'AffTree::decisions'],
         'C14': ['AffFuncBase::indim', 'AffFuncBase::outdim', 'AffFuncBase::n_constraints'],
